@@ -59,9 +59,7 @@ def run_e1(ex):
     for line, r in zip(cases, ex.h.run_lines('e1', cases)):
         ex.note(r, outcome_of=lambda s: ' '.join([str(s[2])] + [kv for kv in s[3].split() if kv.split('=')[0] in ('fits', 'weak', 'effect')]))
         c, d, s, p, ab, ns = line.split(',')
-        cls = 'D=%s,slash=%s,P=%s,%s' % ('PATH_MAX%+d' % (int(d) - PM) if abs(int(d) - PM) < 10 else d, s,
-                                         'PATH_MAX%+d' % (int(p) - PM) if abs(int(p) - PM) < 10 else ('PATH_MAX-D%+d' % (int(p) + int(d) - PM) if abs(int(p) + int(d) - PM) < 10 else p),
-                                         'abs' if ab == '1' else 'rel')
+        cls = '%s,%s' % ('abs' if ab == '1' else 'rel', 'dir-ends-in-slash' if s == '1' else 'dir-without-slash')
         if crash_class(r):
             ex.crash(line, r, 'E1|path_%s|%s' % (c, cls), e1_describe)
             continue
@@ -136,7 +134,7 @@ def e3_configs(tier):
     cfgs = [(0, 0, 0)]
     for n in (1, 2, 3, 8, 40):
         for lm in (0, 1, 2, 3, 4):
-            for to in ((0,) if tier == 'quick' else (0, 1, 2)):
+            for to in (0, 1, 2):
                 cfgs.append((n, lm, to))
     return cfgs
 
@@ -150,7 +148,7 @@ def e3_describe(line):
 def run_e3(ex, tier):
     t = time.time()
     cfgs = e3_configs(tier)
-    depth = 4 if tier == 'quick' else 5
+    depth = 3 if tier == 'quick' else 4
     probes = ['%d,%d,%d,4096,0,1' % c for c in cfgs]
     lines = []
     for c, r in zip(cfgs, ex.h.run_lines('e3', probes)):
@@ -163,8 +161,7 @@ def run_e3(ex, tier):
             acc += s
             bs |= {acc + k for k in (-1, 0, 1, 23, 24, 25)}
         for b in sorted(x for x in bs if 25 <= x <= 4096):
-            nss = (0, 1) if (tier != 'quick' or b % 16 == 0) else (0,)
-            for ns in nss:
+            for ns in (0, 1):
                 lines.append('%d,%d,%d,%d,%d,%d' % (c + (b, ns, depth)))
     ncalls = nstrat = 0
     for b0 in range(0, len(lines), 20000):
@@ -174,7 +171,7 @@ def run_e3(ex, tier):
             break
         part = lines[b0:b0 + 20000]
         for line, r in zip(part, ex.h.run_lines('e3', part)):
-            ex.note(r, outcome_of=lambda s: ' '.join(kv for kv in s[3].split() if kv.split('=')[0] in ('full_listing_calls', 'complete')) + ' ' + str(s[2]))
+            ex.note(r, outcome_of=lambda s: ' '.join(kv for kv in s[3].split() if kv.split('=')[0] in ('agrees', 'full_listing_calls', 'complete')))
             if crash_class(r):
                 ex.crash(line, r, 'E3|fd_readdir', e3_describe)
                 continue
@@ -191,7 +188,7 @@ def run_e3(ex, tier):
 
 
 def main(tier):
-    if tier == 'replay':
+    if tier in ('replay', '--replay'):
         rec = json.load(open(sys.argv[2]))
         res = replay_main(sys.argv[2], make_harness)
         print('REPLAY: %s' % ('differs from the reference / sanitizer report' if (res['x'] or crash_class(res)) else 'case agrees with the reference on the current tree'))
@@ -202,12 +199,12 @@ def main(tier):
     ex.mode = 'e1'; run_e1(ex)
     ex.mode = 'e3'; run_e3(ex, tier)
     ex.mode = 'e2'
-    depth = bfs(ex, e2_alphabet, make_e2_judge(ex), 2 if tier == 'quick' else 3, e2_describe)
+    depth = bfs(ex, e2_alphabet, make_e2_judge(ex), 3 if tier == 'quick' else 4, e2_describe)
     rule = ('E1: every (directory string length, trailing slash, guest path length, absolute) combination of the boundary grid x 9 path-taking calls x both name spaces; '
             'E2: breadth-first search over histories of 8 path operations x 9 names (one history per distinct directory tree is extended), compared with the POSIX twin after every step; '
             'E3: every directory configuration x every buffer size of the boundary set x every resume strategy (continue / restart at 0 / three earlier cookies) up to the call bound, '
             'every call compared with the host listing; distinct_nontrivial = distinct (operation, outcome) pairs observed')
-    return ex.finish(rule, {'max_depth_completed': depth, 'E2_max_depth_completed': depth, 'E3_max_calls_per_strategy': 4 if tier == 'quick' else 5},
+    return ex.finish(rule, {'max_depth_completed': depth, 'E2_max_depth_completed': depth, 'E3_max_calls_per_strategy': 3 if tier == 'quick' else 4},
                      ['the twin runs on the same file system in a sibling directory of equal path length',
                       'E1: a relative path that would fit by exactly one byte because the directory string already ends in "/" may be rejected (counted in "weak"): the statement only requires rejection of what does not fit',
                       'E3: completeness of the listing is required for buffers that hold the longest entry; for smaller buffers every call is still compared with the host listing',
